@@ -17,7 +17,7 @@ namespace Upnp.C15
 structure VarCfg where
   evented : Bool
   rate : Nat              -- `max_rate` in µs (0 = unmoderated)
-  default : Option Int
+  default : Option Val
 deriving Repr
 
 structure Cfg where
@@ -29,7 +29,7 @@ deriving Repr
 structure Var where
   evented : Bool
   rate : Nat
-  value : Option Int       -- `_value`
+  value : Option Val       -- `_value`
   lastSent : Int           -- `_last_sent`
   deferred : Option Int    -- `_defered_event`: fire time of the pending timer
 deriving Repr
@@ -62,12 +62,12 @@ def initVar (base : Int) (c : VarCfg) : Var :=
 def init (c : Cfg) : State :=
   { now := 0, vars := c.vars.map (initVar c.base), subs := [], nextSid := 0, nextDel := 0, inflight := [] }
 
-def State.body (m : State) : List (Nat × Option Int) :=
+def State.body (m : State) : List (Nat × Str) :=
   bodyOf (m.vars.map (·.evented)) (m.vars.map (·.value))
 
 def Sub.bump (s : Sub) : Sub := { s with key := nextKey Gen.C15.seqIncr Gen.C15.seqMax Gen.C15.seqWrapTo s.key }
 
-def notifyOf (now : Int) (body : List (Nat × Option Int)) (s : Sub) : Obs :=
+def notifyOf (now : Int) (body : List (Nat × Str)) (s : Sub) : Obs :=
   .notify s.sid s.key now s.url body
 
 /-- `async_send_events()` without a subscriber: drop expired subscribers, then one NOTIFY per
@@ -93,7 +93,7 @@ def trigger (m : State) (x : Nat) : State × List Obs :=
   (r.1, .trig x m.now :: r.2)
 
 /-- the value setter -/
-def setVar (m : State) (x : Nat) (val : Int) : State × List Obs :=
+def setVar (m : State) (x : Nat) (val : Val) : State × List Obs :=
   match m.vars[x]? with
   | none => (m, [])
   | some v =>
@@ -110,7 +110,7 @@ def setVar (m : State) (x : Nat) (val : Int) : State × List Obs :=
 /-- several assignments without yielding: the trigger tasks they create (`pend`, in order of creation) have
     not run yet, so `_last_sent` is still the old one; `_trigger_pending` (= membership in `pend`) keeps a
     second assignment to the same variable from creating a second task. -/
-def assignMany (m : State) (pend : List Nat) : List (Nat × Int) → State × List Nat
+def assignMany (m : State) (pend : List Nat) : List (Nat × Val) → State × List Nat
   | [] => (m, pend)
   | (x, val) :: rest =>
     match m.vars[x]? with
@@ -130,7 +130,7 @@ def flush (m : State) (D : List Nat) : State × List Obs :=
   let r := broadcastN D.length m1
   (r.1, D.map (fun x => .trig x m.now) ++ r.2)
 
-def setMany (m : State) (l : List (Nat × Int)) : State × List Obs :=
+def setMany (m : State) (l : List (Nat × Val)) : State × List Obs :=
   let r := assignMany m [] l
   flush r.1 r.2
 
@@ -213,6 +213,18 @@ def deliveryDone (m : State) (k : Nat) : State × List Obs :=
      | some sid => [.ret sid]
      | none => [])
 
+/-- a NOTIFY delivery raises: `gather` hands the exception to whoever awaits the fan-out — the fire-and-forget
+    `async_send_events` task (nothing observable) or the SUBSCRIBE handler (it raises after its response was
+    sent); the other deliveries of the fan-out go on, nobody is dropped, nothing is retried -/
+def deliveryFailed (m : State) (k : Nat) : State × List Obs :=
+  match m.inflight.find? (fun p => p.1 == k) with
+  | none => (m, [])
+  | some p =>
+    ({ m with inflight := m.inflight.filter (fun q => q.1 != k) },
+     match p.2 with
+     | some sid => [.exc sid]
+     | none => [])
+
 def step (m : State) : Op → State × List Obs
   | .subscribe sid cb to => subscribe m sid cb to
   | .unsubscribe sid => unsubscribe m sid
@@ -220,6 +232,7 @@ def step (m : State) : Op → State × List Obs
   | .setMany l => setMany m l
   | .adv dt => advance (m.vars.length + 1) m (m.now + dt)
   | .done k => deliveryDone m k
+  | .fail k => deliveryFailed m k
   | .setKey sid k => ({ m with subs := m.subs.map (fun s => if s.sid = sid then { s with key := k } else s) }, [])
 
 /-- the trace of a history: every operation followed by what the server did -/
